@@ -1,5 +1,5 @@
 From Coq Require Import List NArith Bool.
-From LTV.C17 Require Import Model Proofs ProofsA ProofsB ProofsC ProofsD ProofsE ProofsF ProofsG ProofsH ProofsI ProofsJ ProofsK ProofsL ProofsM ProofsN.
+From LTV.C17 Require Import Model Proofs ProofsA ProofsB ProofsC ProofsD ProofsE ProofsF ProofsG ProofsH ProofsI ProofsJ ProofsK ProofsL ProofsM ProofsN ProofsO.
 Import ListNotations.
 
 (* Conventions: all theorems quantify over ALL client programs [progs], callback bodies [bds], id counts and
@@ -314,12 +314,56 @@ Theorem no_lost_wakeup_handshake : forall progs nids bds c t th i old ep rest w,
 Proof. exact ProofsN.no_lost_wakeup_handshake. Qed.
 Print Assumptions no_lost_wakeup_handshake.
 
+(* BOUNDED PROGRESS OF THE HANDSHAKE (ALL programs, bodies, id counts, thread counts, schedules) - the progress measure for
+   mutual_cancel_no_deadlock: from EVERY reachable state in which a thread is blocked in wait_for_deadlock's id->wait() and
+   has not been notified,
+   handshake_wait_ends_within_2: one or two steps of ANOTHER thread (the flag's setter: dl_fetch_add, then
+     dl_fetch_and + notify_all) leave the waiter's stack as it is, clear the 0x8 flag, raise the notify count, keep the
+     in-progress count, do not crash - and the waiter is ENABLED;
+   handshake_wait_returns: hence there is a schedule of at most 4 steps (the setter's one or two, then the waiter's wake-up
+     and reload) after which the waiter's cancel_callback_and_wait(id, other) call HAS RETURNED (its stack is the
+     continuation [rest], the return event is logged);
+   handshake_not_both_blocked: in a two-thread system two threads standing in the handshake wait of one id are both
+     enabled (each has been notified since it blocked) - "never both blocked" for the blocked state itself.
+   The measure: (setter steps left: 2 at dl_fetch_add, 1 at dl_fetch_and, 0 once notified) then (waiter steps left: 2).
+   Explicit assumptions: SC atomics, the wait/notify model of the header. *)
+Theorem handshake_wait_ends_within_2 : forall progs nids bds c t th i old ep rest w,
+  reachable (init progs nids bds) c -> crashed c = false ->
+  nth_error (threads c) t = Some th -> todo th = IDlWBlk i old ep :: rest ->
+  nth_error (ids c) i = Some w -> ntf w = ep ->
+  exists t2 n, t2 <> t /\ 1 <= n <= 2 /\
+    let c' := run c (repeat t2 n) in
+    crashed c' = false /\ nth_error (threads c') t = Some th /\ enabled c' t = true /\
+    exists w', nth_error (ids c') i = Some w' /\ dl w' = false /\ ntf w' = S ep /\ cnt w' = cnt w.
+Proof. exact ProofsO.handshake_wait_ends_within_2. Qed.
+Print Assumptions handshake_wait_ends_within_2.
+Theorem handshake_wait_returns : forall progs nids bds c t th i old ep rest w,
+  reachable (init progs nids bds) c -> crashed c = false ->
+  nth_error (threads c) t = Some th -> todo th = IDlWBlk i old ep :: rest ->
+  nth_error (ids c) i = Some w -> ntf w = ep ->
+  exists sched, length sched <= 4 /\
+    crashed (run c sched) = false /\
+    exists th', nth_error (threads (run c sched)) t = Some th' /\ todo th' = rest /\
+      In (EvCwRet t i true) (log (run c sched)).
+Proof. exact ProofsO.handshake_wait_returns. Qed.
+Print Assumptions handshake_wait_returns.
+Theorem handshake_not_both_blocked : forall progs nids bds c t1 t2 th1 th2 i w o1 o2 e1 e2 r1 r2,
+  reachable (init progs nids bds) c -> crashed c = false -> length (threads c) = 2 -> t1 <> t2 ->
+  nth_error (ids c) i = Some w ->
+  nth_error (threads c) t1 = Some th1 -> todo th1 = IDlWBlk i o1 e1 :: r1 ->
+  nth_error (threads c) t2 = Some th2 -> todo th2 = IDlWBlk i o2 e2 :: r2 ->
+  enabled c t1 = true /\ enabled c t2 = true.
+Proof. exact ProofsO.handshake_not_both_blocked. Qed.
+Print Assumptions handshake_not_both_blocked.
+
 (* sanity instance of the above (finite, bound in the statement; kept as an Example-style check): from the reachable
    state in which both threads are inside a callback of the shared id and about to call
    cancel_callback_and_wait(id, other), every maximal interleaving finishes both threads within 40
-   steps. MISSING: the statement for arbitrary two-thread programs (needs a progress measure on top of
-   shape_invariant + count_invariant: a thread in the handshake path never waits on the count, a thread
-   in wait_for_deadlock waits only while the other is between dl_cas and dl_fetch_and). *)
+   steps. The progress measure for arbitrary programs is handshake_wait_ends_within_2 / handshake_wait_returns above
+   (existence of a short schedule from every blocked state). STILL MISSING for dropping the suffix: termination of
+   cancel_callback_and_wait(id, other) under EVERY fair schedule for arbitrary programs - the dl_cas retry loop
+   (dl_load / dl_cas failing because a third party changed the word) has no bound without a fairness predicate over
+   infinite schedules, which is not formalised; this instance bounds every maximal interleaving of ONE program. *)
 Theorem mutual_cancel_no_deadlock_partial :
   reachable (init dead_progs 1 mut_bodies) mut_mid /\ all_paths_finish 40 mut_mid = true.
 Proof. exact ProofsB.mutual_cancel_no_deadlock_instance. Qed.
